@@ -95,11 +95,13 @@ UDiv(a, b, exact) ==
   ELSE LET off == IF HasOff(a) \/ HasOff(b) THEN a.off ELSE RZero IN
        MkUnit(VSub(a.ex, b.ex), QSub(a.clg, b.clg), QSub(a.lg, b.lg), a.neg # b.neg, VSub(a.dim, b.dim), off, a.reg, a.c1 /\ b.c1, exact)
 
-\* Unit.__pow__(self=a, p) : the offset is not carried
+\* Unit.__pow__(self=a, p) : offset units only to the power 1 (and then the offset is not carried)
 UPow(a, e, exact) ==
   IF ~IsUnit(a) THEN Raise
   ELSE LET p == Eff(e) IN
        IF IsLog(a) /\ p # ROne THEN Raise
+       \* (since the repair "refuse powers of units with an offset")
+       ELSE IF HasOff(a) /\ p # ROne THEN Raise
        \* base_value ** p on a negative scale (the table's "lat") with a non-integral p is complex: float() raises TypeError
        ELSE IF a.neg /\ p[2] # 1 THEN Raise
        ELSE MkUnit(VScale(a.ex, p), QMul(a.clg, p), QMul(a.lg, p), a.neg /\ (p[1] % 2 = 1), VScale(a.dim, p), RZero, a.reg, a.c1, exact)
@@ -173,16 +175,25 @@ Mul(a, b) == I("mul", a, b, E1)
 Div(a, b) == I("div", a, b, E1)
 Pow(a, e) == I("pow", a, 0, e)
 Simp(a) == I("simplify", a, 0, E1)
+\* what an instruction means for the algebra: the unary rules are powers / a product reached through unyt.array
+Sem(ins) == CASE ins.op = "sqrtrule" -> I("pow", ins.a, 0, Ex(1, 2, "float"))
+              [] ins.op = "recrule" -> I("pow", ins.a, 0, Ex(-1, 1, "int"))
+              [] ins.op = "sqrrule" -> I("mul", ins.a, ins.a, Ex(1, 1, "int"))
+              [] OTHER -> ins
 Coef(a) == I("coeff", a, 0, E1)
 \* the memoised unit rules of unyt/array.py: _multiply_units / _divide_units = as_coeff_unit(simplify(u*v | u/v))
 MulRule(a, b) == I("mulrule", a, b, E1)
 DivRule(a, b) == I("divrule", a, b, E1)
+\* the unary rules: _sqrt_unit = unit**0.5, _reciprocal_unit = unit**-1, _square_unit = unit*unit (factor 1)
+SqrtRule(a) == I("sqrtrule", a, 0, E1)
+RecRule(a) == I("recrule", a, 0, E1)
+SqrRule(a) == I("sqrrule", a, 0, E1)
 \* kinds of register pairs: "law" - the law says both denote the same unit; "twin" - the same construction twice
 \* (law + same expression + same hash); "probe" - only the semantics of == is looked at
 Pr(i, j, kind) == [i |-> i, j |-> j, kind |-> kind]
 One == 4
 
-Laws == {"comm", "ident", "assoc", "powpow", "powmul", "powadd", "simp", "eqsem", "rules"}
+Laws == {"comm", "ident", "assoc", "powpow", "powmul", "powadd", "simp", "eqsem", "rules", "state"}
 
 Prog(law, p, q) ==
   CASE law = "comm" ->    \* u*v == v*u ; u/v == u*v**-1 == v**-1*u
@@ -201,6 +212,9 @@ Prog(law, p, q) ==
          <<Pow(1, p), Mul(5, 2), Div(6, 3), Simp(7), Coef(8), Pow(1, p), Mul(10, 2), Div(11, 3), Mul(1, 2), Simp(13), Coef(14)>>
     [] law = "eqsem" ->   \* == between two leaves and their trivial re-expressions
          <<Mul(2, One), Div(1, One)>>
+    [] law = "state" ->   \* run in EVERY phase of a registry history, on terms re-built in the current registry state
+         <<Mul(1, 2), Div(5, 3), Simp(6), Coef(7), Coef(6), MulRule(1, 2), DivRule(1, 3), Pow(1, p), Div(12, 3), Simp(13),
+           SqrtRule(5), RecRule(1), SqrRule(2), Div(1, 3), Simp(18), Coef(19), Mul(1, 2)>>
     [] law = "rules" ->   \* the (factor, unit) a ufunc gets for u*v and u/v denotes u*v and u/v ; asked twice (memo hit)
          <<MulRule(1, 2), DivRule(1, 2), Mul(1, 2), Div(1, 2), MulRule(1, 2), DivRule(1, 2), MulRule(2, 1)>>
 
@@ -214,6 +228,8 @@ Pairs(law) ==
     [] law = "powadd" -> <<Pr(7, 8, "law"), Pr(9, 10, "law")>>
     [] law = "simp" -> <<Pr(8, 12, "law"), Pr(9, 12, "probe"), Pr(15, 14, "probe"), Pr(6, 11, "twin"), Pr(14, 12, "probe")>>
     [] law = "eqsem" -> <<Pr(1, 2, "probe"), Pr(1, 5, "probe"), Pr(6, 2, "probe"), Pr(1, 1, "law"), Pr(2, 2, "law")>>
+    [] law = "state" -> <<Pr(7, 6, "law"), Pr(14, 13, "law"), Pr(19, 18, "law"), Pr(5, 21, "twin"), Pr(8, 6, "probe"),
+                          Pr(20, 18, "probe"), Pr(10, 5, "probe"), Pr(11, 18, "probe"), Pr(1, 3, "probe"), Pr(17, 2, "probe")>>
     [] law = "rules" -> <<Pr(5, 7, "probe"), Pr(6, 8, "probe"), Pr(5, 9, "law"), Pr(6, 10, "law"), Pr(5, 11, "probe")>>
 
 (* --------------------------- Part 3: C05 predicates ---------------------- *)
@@ -230,7 +246,7 @@ LeavesPositive(W) == \A r \in 1..3 : IsUnit(W.regs[r]) => ~W.regs[r].neg
 \* C05_Hom: the scale of a product is the product of scales, its dimension the product of dimensions
 \* (and likewise for quotients and powers).  Returns the set of failing instruction indices.
 HomOk(W, k) ==
-  LET ins == W.prog[k] res == Res(W, k) IN
+  LET ins == Sem(W.prog[k]) res == Res(W, k) IN
   IF ins.op \notin {"mul", "div", "pow"} \/ ~IsUnit(res) THEN TRUE
   ELSE LET a == W.regs[ins.a] IN
        CASE ins.op = "mul" -> LET b == W.regs[ins.b] IN
@@ -284,7 +300,7 @@ HashOk(W, pr) ==
 \* C05_Closed: on offset-free, non-logarithmic units every operation of the algebra is defined
 \* (one registry; the first failing operation only: its operands did return)
 ClosedOk(W, k) ==
-  LET ins == W.prog[k] IN
+  LET ins == Sem(W.prog[k]) IN
   (LeavesPlain(W) /\ Homog(W) /\ IsUnit(W.regs[ins.a]) /\ (ins.b # 0 => IsUnit(W.regs[ins.b]))) => IsUnit(Res(W, k))
 \* C05_Simplify / C05_Coeff: the returned form denotes the same unit as before
 SimpOk(W, k) ==
@@ -304,6 +320,10 @@ RuleOk(W, k) ==
     /\ W.herr[k] <= HomTol
     /\ W.exact => (res.lgok /\ RAdd(res.cf, res.lg) = (IF ins.op = "mulrule" THEN RAdd(a.lg, b.lg) ELSE RSub(a.lg, b.lg)))
 
+\* C05_Current (registry histories): a term built from a string in the CURRENT registry state denotes what the current
+\* definitions imply, whatever was computed before the edit (W.alg / W.adim are the table the history has reached)
+CurrentOk(W, r) == W.hist => SyncOk(W, W.regs[r])
+
 \* the failing clauses of a run, as a set of records (empty = C05 holds on this run)
 Fails(W) ==
   {[clause |-> "Hom", at |-> k] : k \in {x \in DOMAIN W.prog : ~HomOk(W, x)}}
@@ -311,6 +331,7 @@ Fails(W) ==
   \cup {[clause |-> "Closed", at |-> k] : k \in {x \in DOMAIN W.prog : ~ClosedOk(W, x)}}
   \cup {[clause |-> "Denote", at |-> k] : k \in {x \in DOMAIN W.prog : ~SimpOk(W, x)}}
   \cup {[clause |-> "Rule", at |-> k] : k \in {x \in DOMAIN W.prog : ~RuleOk(W, x)}}
+  \cup {[clause |-> "Current", at |-> k] : k \in {x \in 1..NLeaf : ~CurrentOk(W, x)}}
   \cup {[clause |-> "Law", at |-> k] : k \in {x \in DOMAIN W.pairs : ~LawOk(W, W.pairs[x])}}
   \cup {[clause |-> "Eq", at |-> k] : k \in {x \in DOMAIN W.pairs : ~EqSemOk(W, W.pairs[x])}}
   \cup {[clause |-> "Hash", at |-> k] : k \in {x \in DOMAIN W.pairs : ~HashOk(W, W.pairs[x])}}
